@@ -26,6 +26,9 @@ type AuthHost struct {
 	PresetToken bool   `json:"preset_token,omitempty"` // the credential carries an access token
 	Redirect    bool   `json:"redirect,omitempty"`     // blob GETs are redirected to cdn.example
 	NoCred      bool   `json:"no_cred,omitempty"`      // the caller has no credential for this host
+	// RedirectTo: blob GETs are redirected to the same path on host #RedirectTo-1, another
+	// registry of this world with its own scheme and credentials (0 = no such redirect)
+	RedirectTo int `json:"redirect_to,omitempty"`
 }
 
 type AuthReq struct {
@@ -90,6 +93,14 @@ func (p *authProp) Gen(r *Rand, tier string, idx int) any {
 			h.NoCred, h.PresetToken, h.ChangeAfter, h.NewScheme = true, false, 0, ""
 		}
 		ap.Hosts = append(ap.Hosts, h)
+	}
+	if r.Chance(0.15) {
+		// one host hands its blobs over to another registry host
+		a := r.Intn(nh)
+		b := (a + 1 + r.Intn(nh-1)) % nh
+		ap.Hosts[a].Redirect, ap.Hosts[a].RedirectTo = false, b+1
+		ap.Hosts[a].ChangeAfter, ap.Hosts[a].NewScheme = 0, ""
+		ap.Hosts[b].ChangeAfter, ap.Hosts[b].NewScheme = 0, ""
 	}
 	ap.Cache = pick(r, []string{"none", "shared", "shared", "single"})
 	ap.OAuth2 = r.Chance(0.2)
@@ -438,6 +449,9 @@ func (w *authWorld) RoundTrip(req *http.Request) (*http.Response, error) {
 		method := req.Method
 		resource, actions := requiredScope(repo, method)
 		serve := func() (*http.Response, error) {
+			if h.RedirectTo > 0 && strings.Contains(req.URL.Path, "/blobs/") && req.Method == http.MethodGet {
+				return resp(307, http.Header{"Location": {"https://" + w.ap.Hosts[h.RedirectTo-1].Name + req.URL.Path}}, "")
+			}
 			if h.Redirect && strings.Contains(req.URL.Path, "/blobs/") && req.Method == http.MethodGet {
 				return resp(307, http.Header{"Location": {"https://" + authCDNHost + "/data" + req.URL.Path}}, "")
 			}
@@ -668,6 +682,13 @@ func (p *authProp) run(rc *RunCtx, ap *AuthParams, info *RunInfo) *Verdict {
 			gotCred = true
 		}
 		what := fmt.Sprintf("request %s %s %s (task %d, hints %v)", d.q.Method, ap.Hosts[d.q.Host].Name, d.q.Repo, d.task, d.q.Hints)
+		if ap.Hosts[d.q.Host].RedirectTo > 0 && d.q.Method == "BLOB" {
+			// handed over to another registry, which may ask for credentials of its own: how
+			// the request ends is that host's business (its 401 is a legitimate end); where
+			// secrets went is judged above like for every other exchange
+			info.Probes["redirected_to_other_registry"]++
+			continue
+		}
 		if ap.Hosts[d.q.Host].NoCred {
 			// no credential for this host: the request legitimately ends with an error or 401
 			if d.err == nil && d.status != 401 {
